@@ -40,3 +40,48 @@ func verifC15NativeCwd(cwd, arg string) {
 	verifReach("linted")
 	verifCheckf(len(errs) == 0, "paths-glob-matched-against-cwd-relative-path", cwd+" "+arg)
 }
+
+func verifC15NativeCheck(src, pat string, viaConfig bool) {
+	tmp, err := os.MkdirTemp("", "verif-c15-")
+	if err != nil {
+		panic(err)
+	}
+	defer os.RemoveAll(tmp)
+	tmp, _ = filepath.EvalSymlinks(tmp)
+	must := func(err error) {
+		if err != nil {
+			panic(err)
+		}
+	}
+	must(os.MkdirAll(filepath.Join(tmp, "r", ".github", "workflows"), 0o755))
+	must(os.MkdirAll(filepath.Join(tmp, "r", ".git"), 0o755))
+	must(os.WriteFile(filepath.Join(tmp, "r", ".github", "workflows", "w.yml"), []byte(src), 0o644))
+	old, _ := os.Getwd()
+	defer os.Chdir(old)
+	must(os.Chdir(filepath.Join(tmp, "r")))
+	l0, err := NewLinter(io.Discard, &LinterOptions{})
+	must(err)
+	all, err := l0.LintFile(".github/workflows/w.yml", nil)
+	verifCheck(err == nil && len(all) >= 1, "lint-failed")
+	opts := &LinterOptions{}
+	if viaConfig {
+		must(os.WriteFile(filepath.Join(tmp, "r", ".github", "actionlint.yaml"), []byte("paths:\n  .github/workflows/*.yml:\n    ignore:\n      - "+pat+"\n"), 0o644))
+	} else {
+		opts.IgnorePatterns = []string{pat}
+	}
+	l, err := NewLinter(io.Discard, opts)
+	must(err)
+	errs, err := l.LintFile(".github/workflows/w.yml", nil)
+	verifCheck(err == nil, "lint-failed")
+	verifReach("linted")
+	want := 0
+	for _, e := range all {
+		if !strings.Contains(e.Message, pat) {
+			want++
+		}
+	}
+	if want < len(all) {
+		verifReach("pattern-matches")
+	}
+	verifCheckf(len(errs) == want, "ignore-pattern-not-applied-to-every-diagnostic", pat)
+}
